@@ -76,7 +76,7 @@ _AGE = None
 def age_table(repo):
     global _AGE
     if _AGE is None:
-        with open(os.path.join(repo, 'athlib', 'wma', 'wma-athlons-data.json')) as f:
+        with open(os.path.join(repo, 'athlib', 'wma', 'wma-athlons-data.json'), encoding='utf-8') as f:
             _AGE = json.load(f, parse_float=lambda s: s, parse_int=lambda s: s)
     return _AGE
 
